@@ -9,7 +9,8 @@ Local Open Scope string_scope.
 Local Open Scope list_scope.
 Open Scope Z_scope.
 
-Inductive rhandler := HVersion | HSecurity | HAuthResp | HClientInit | HProtocol | HQemu.
+Inductive rhandler := HVersion | HSecurity | HAuthResp | HClientInit | HProtocol | HQemu
+| HEncList (n : Z) | HCutText (n : Z).     (* partial(self._handle_setEncodingsList, n) / partial(self._handle_clientCutText, n) *)
 
 Inductive revent :=
 | RRecord (line : text)           (* one write to the recorder *)
@@ -85,7 +86,7 @@ Definition unpackZs (fmt : list fld) (b : bytes) : option (list Z) :=
 
 (** one handler invocation: events, new state, [None] = raises, and whether it is the
     zero-progress ClientCutText case *)
-Inductive hres := HOk (es : list revent) (s : rstate) | HRaise | HNoProgress (es : list revent) (s : rstate).
+Inductive hres := HOk (es : list revent) (s : rstate) | HRaise.
 
 Definition starts (p s : text) : bool := starts_with p s.
 
@@ -102,7 +103,9 @@ Definition handle (s : rstate) (now : Z) : hres :=
         (if r_pwreq s then HOk es (with_buf s rest HAuthResp 16) else HOk es (with_buf s rest HClientInit 1))
       else if text_eqb version (w "007") || text_eqb version (w "008") then HOk es (with_buf s rest HSecurity 1)
       else HOk es (with_buf s rest HVersion 12)
-  | HSecurity => HOk [] (with_buf s (skipn 1 buf) HClientInit 1)
+  | HSecurity =>
+      if hd 0 buf =? AUTH_VNC_AUTHENTICATION then HOk [] (with_buf s (skipn 1 buf) HAuthResp 16)
+      else HOk [] (with_buf s (skipn 1 buf) HClientInit 1)
   | HAuthResp => HOk [] (with_buf s (skipn 16 buf) HClientInit 1)
   | HClientInit => HOk [RStartLogging] (with_buf s (skipn 1 buf) HProtocol 1)
   | HProtocol =>
@@ -110,11 +113,11 @@ Definition handle (s : rstate) (now : Z) : hres :=
       | [] => HRaise
       | ptype :: _ =>
           let nbytes := type_len ptype in
-          if len buf <? nbytes then HOk [] (with_buf s buf HProtocol (nbytes + 1))
+          if len buf <? nbytes then HOk [] (with_buf s buf HProtocol nbytes)
           else
             let block := skipn 1 (firstn (Z.to_nat nbytes) buf) in
             let rest := skipn (Z.to_nat nbytes) buf in
-            let s1 := with_buf s rest (r_handler s) (r_need s) in
+            let s1 := with_buf s rest HProtocol 1 in
             if ptype =? C2S_SET_PIXEL_FORMAT then
               match unpack fmt_loggingproxy_RFBServer_handle_protocol_1 block with
               | Some [VS pb] => match pf_from_bytes pb with
@@ -125,24 +128,16 @@ Definition handle (s : rstate) (now : Z) : hres :=
               end
             else if ptype =? C2S_SET_ENCODING then
               match unpackZs fmt_loggingproxy_RFBServer_handle_protocol_2 block with
-              | Some [n] =>
-                  match take (4 * n) rest with
-                  | Some (eb, rest2) =>
-                      match unpackZs (fmt_loggingproxy_RFBServer_handle_protocol_3 n) eb with
-                      | Some l => HOk [RSetEncodings l] (with_buf s rest2 (r_handler s) (r_need s))
-                      | None => HRaise
-                      end
-                  | None => HRaise          (* unpack_from on a short buffer: struct.error *)
-                  end
+              | Some [n] => HOk [] (with_buf s rest (HEncList n) (4 * n))
               | _ => HRaise
               end
             else if ptype =? C2S_FRAMEBUFFER_UPDATE_REQUEST then
-              match unpackZs fmt_loggingproxy_RFBServer_handle_protocol_4 block with
+              match unpackZs fmt_loggingproxy_RFBServer_handle_protocol_3 block with
               | Some [inc; x; y; ww; hh] => HOk [RFbUpdate x y ww hh inc] s1
               | _ => HRaise
               end
             else if ptype =? C2S_KEY_EVENT then
-              match unpackZs fmt_loggingproxy_RFBServer_handle_protocol_5 block with
+              match unpackZs fmt_loggingproxy_RFBServer_handle_protocol_4 block with
               | Some [down; key] =>
                   match record_key s1 now key down with
                   | Some (line, s2) => HOk [RRecord line] s2
@@ -151,12 +146,15 @@ Definition handle (s : rstate) (now : Z) : hres :=
               | _ => HRaise
               end
             else if ptype =? C2S_POINTER_EVENT then
-              match unpackZs fmt_loggingproxy_RFBServer_handle_protocol_6 block with
+              match unpackZs fmt_loggingproxy_RFBServer_handle_protocol_5 block with
               | Some [mask; x; y] => let '(line, s2) := record_pointer s1 now x y mask in HOk [RRecord line] s2
               | _ => HRaise
               end
             else if ptype =? C2S_CLIENT_CUT_TEXT then
-              (if nbytes =? 0 then HNoProgress [RCutText] s1 else HOk [RCutText] s1)
+              match unpackZs fmt_loggingproxy_RFBServer_handle_protocol_6 block with
+              | Some [n] => HOk [] (with_buf s rest (HCutText n) n)
+              | _ => HRaise
+              end
             else if ptype =? C2S_QEMU_CLIENT_MESSAGE then
               match unpackZs fmt_loggingproxy_RFBServer_handle_protocol_7 block with
               | Some [sub] => if sub =? QEMU_EXTENDED_KEY_EVENT then HOk [] (with_buf s rest HQemu 10) else HRaise
@@ -167,12 +165,26 @@ Definition handle (s : rstate) (now : Z) : hres :=
   | HQemu =>
       match unpackZs fmt_loggingproxy_RFBServer_handle_qemuExtendedKeyEvent_0 (firstn 10 buf) with
       | Some [down; keysym; keycode] =>
-          let s1 := with_buf s (skipn 12 buf) HProtocol 1 in
+          let s1 := with_buf s (skipn 10 buf) HProtocol 1 in
           match record_key s1 now keysym down with
           | Some (line, s2) => HOk [RRecord line] s2
           | None => HRaise
           end
       | _ => HRaise
+      end
+  | HEncList n =>
+      match take (4 * n) buf with
+      | Some (eb, rest) =>
+          match unpackZs (fmt_loggingproxy_RFBServer_handle_setEncodingsList_0 n) eb with
+          | Some l => HOk [RSetEncodings l] (with_buf s rest HProtocol 1)
+          | None => HRaise
+          end
+      | None => HRaise
+      end
+  | HCutText n =>
+      match take n buf with
+      | Some (_, rest) => HOk [RCutText] (with_buf s rest HProtocol 1)
+      | None => HRaise
       end
   end.
 
@@ -185,10 +197,9 @@ Fixpoint rloop (fuel : nat) (s : rstate) (now : Z) (acc : list revent) : rres :=
            match handle s now with
            | HOk es s' => rloop f s' now (acc ++ es)
            | HRaise => RRaise acc
-           | HNoProgress es _ => RSpin (acc ++ es)
            end
        end.
 
 Definition rfeed (s : rstate) (now : Z) (d : bytes) : rres :=
   let s' := with_buf s (r_buf s ++ d) (r_handler s) (r_need s) in
-  rloop (S (S (List.length (r_buf s')))) s' now [].
+  rloop (2 * List.length (r_buf s') + 4) s' now [].
